@@ -79,10 +79,10 @@ def main(args):
                "is a leaf schema, through validation of {\"$ref\": \"#\"+fragment} in 4 drafts; plus random documents "
                "and fragments judged by TLC (Trace_C14). Non-trivial: fragment with >= 1 token; distinct by (doc, fragment)."
                % (3 if quick else 5))
-    r = tlc.run("mc/MC_C14.tla", cfg="mc/MC_C14_%s.cfg" % args.tier, workers=16, timeout=3000)
+    r = tlc.run("mc/MC_C14.tla", cfg="mc/MC_C14_%s.cfg" % args.tier, workers=16, timeout=3000, coverage=True)
     if r.violation:
         raise tlc.MachineryFailure("Pointer spec law violated: " + r.violation)
-    ck.add_tlc(r)
+    ck.add_tlc(r, "MC_C14")
     docs = None
     for ex in r.exports:
         if "docs" in ex:
